@@ -35,7 +35,7 @@ func gCorpus(c *Ctx, mode int) []*corpus.Spec {
 			want[s.Name] = true
 		}
 	default:
-		for _, n := range []string{"expr_std", "expr_nonassoc", "etf", "lvalue", "sep_ba", "nqlalr", "list_null", "opt_mid", "prec_mixed", "nullseq_OM", "etf_basefirst", "dangling_else", "len4", "len10", "stmts12", "redecl", "rlist", "split_groups", "nullable_chain3", "big200"} {
+		for _, n := range []string{"expr_std", "expr_nonassoc", "etf", "lvalue", "sep_ba", "nqlalr", "list_null", "opt_mid", "prec_mixed", "nullseq_OM", "etf_basefirst", "dangling_else", "len4", "len10", "stmts12", "redecl", "rlist", "split_groups", "nullable_chain3", "big200", "rlist_basefirst", "alias_follow", "mod_op"} {
 			want[n] = true
 		}
 	}
@@ -78,12 +78,24 @@ func gParse(c *Ctx, mode int, tag string) {
 	specs := gCorpus(c, mode)
 	c.classifyLALR(y, specs)
 	variants := GoVariants
-	g, err := c.Generate(y, specs, append(append([]string{}, variants...), "ts"), nil)
+	g, err := c.Generate(y, specs, append(append([]string{}, variants...), "ts"), map[string]string{"zz_verif_step.go": stepSentinel})
 	if err != nil {
 		c.Inconclusive("%v", err)
 		return
 	}
 	specs = g.Specs
+	// the step lemma reads "reduce -a" as rule a of the file: confirmed per grammar on the
+	// native dump (a tree that numbers its rules differently is decided without the lemma)
+	stepOK := map[string]bool{}
+	if g.NoStep == "" {
+		if dumps, err := c.DumpAll(y, specs); err == nil {
+			for _, s := range specs {
+				if r := dumps[s.Name]; r.OK && r.Dump != nil && rulesInFileOrder(s, r.Dump) {
+					stepOK[s.Name] = true
+				}
+			}
+		}
+	}
 	N := 4
 	if c.Thorough() {
 		N = 6
@@ -106,8 +118,12 @@ func gParse(c *Ctx, mode int, tag string) {
 	// jobs share the engine (read-only SSA); run a few side by side
 	sem := make(chan struct{}, 4)
 	var wg sync.WaitGroup
+	stepOnly := os.Getenv("VERIF_STEP_ONLY") != "" // development aid: only the step lemma
 	for _, j := range jobs {
 		j := j
+		if stepOnly {
+			break
+		}
 		wg.Add(1)
 		sem <- struct{}{}
 		go func() {
@@ -128,9 +144,46 @@ func gParse(c *Ctx, mode int, tag string) {
 			c.MarkDistinct(j.s.Name + "/" + j.v)
 		}()
 	}
+	// the step lemma: one macro-step of the driver from every path configuration
+	D := 4
+	if c.Thorough() {
+		D = 5
+	}
+	nStep := 0
+	for _, j := range jobs {
+		j := j
+		if !stepOK[j.s.Name] || j.s.HasTag("big") {
+			continue
+		}
+		if !c.Thorough() && (j.v == "go-u" || j.v == "go-o-u") {
+			// quick tier: the two driver texts (global state, context object); the -u forms
+			// differ in Action only, which the reference machine calls as well
+			continue
+		}
+		nStep++
+		wg.Add(1)
+		sem <- struct{}{}
+		go func() {
+			defer wg.Done()
+			defer func() { <-sem }()
+			job := c.GenJob(g, j.s, j.v, "VerifStep", []int{D, mode}, tag)
+			job.Tweak = nil
+			c.RunSym(job)
+		}()
+	}
+	if nStep > 0 {
+		c.Harnesses = append(c.Harnesses, "harness/gen/step.go.txt:VerifStep (emitted next to each generated Go parser)")
+		c.Bound("step lemma, inputs of any length: from every configuration whose stack spells a path of the emitted automaton (depth <= %d, up to %d slots, stale slots arbitrary, values arbitrary int64) and every lookahead code, the emitted Go driver performs exactly the LR machine's moves over the emitted table until the next token request / accept / error (%d grammar-variant pairs); parses whose stack grows beyond %d entries are outside this lemma (they are covered up to N tokens by the exploration from the initial configuration)", D, D, nStep, D)
+		c.Assumptions = append(c.Assumptions, "step lemma: the driver's append-vs-overwrite behaviour depends on the slice length only through the comparison with the stack pointer (gosym does not model capacity: a pointer kept across a reallocating append would not be seen)")
+	} else if g.NoStep != "" {
+		c.Outside = append(c.Outside, "step lemma not established on this tree (the harness writes the driver's stack variables by name and they changed: "+g.NoStep+")")
+	}
 	// the TypeScript variant, executed by tsmini on the same term/solver layer
 	for _, s := range specs {
 		s := s
+		if stepOnly {
+			break
+		}
 		wg.Add(1)
 		sem <- struct{}{}
 		go func() {
@@ -152,7 +205,10 @@ func gParse(c *Ctx, mode int, tag string) {
 	c.Programs = len(specs)
 	// inputs of any length: the emitted dense table is validated cell by cell against the
 	// Horn model of the LALR(1) automaton (premise of the standard LR correctness argument)
-	if mode&(modeSound|modeComplete) != 0 {
+	if nStep > 0 {
+		c.NeedCovers("step-shift", "step-reduce", "step-accept", "step-error")
+	}
+	if mode&(modeSound|modeComplete) != 0 && !stepOnly {
 		vspecs := specs
 		if c.Thorough() {
 			vspecs = append(append([]*corpus.Spec{}, corpus.Fixed()...), corpus.Random(c.Seed, 60)...)
@@ -161,4 +217,23 @@ func gParse(c *Ctx, mode int, tag string) {
 		c.Bound("any input length (per grammar): every cell of the emitted dense table of %d grammars decided against the Horn model of the LALR(1) automaton (Z3 datalog); with C05's cell-wise equality of the packed look-up and the bounded driver exploration this covers parses of unbounded length under the standard LR argument", len(vspecs))
 		c.Assumptions = append(c.Assumptions, "the composition argument (table is an LALR(1) table + driver executes the table) is standard LR theory and part of the trusted base")
 	}
+}
+
+// rulesInFileOrder: rule k of the dump is rule k of the specification (0 = augmented rule).
+func rulesInFileOrder(s *corpus.Spec, d *Dump) bool {
+	if len(d.Rules) != len(s.Rules)+1 {
+		return false
+	}
+	for k, r := range s.Rules {
+		dr := d.Rules[k+1]
+		if dr.Lhs != d.symByRef(r.Lhs) || len(dr.Rhs) != len(r.Rhs) {
+			return false
+		}
+		for i, x := range r.Rhs {
+			if dr.Rhs[i] != d.symByRef(x) {
+				return false
+			}
+		}
+	}
+	return true
 }
